@@ -37,8 +37,17 @@ def one_case(run, l, cart, labels, expect_kind="valid"):
     run.count("labels " + expect_kind)
     strs = all(isinstance(x, str) for x in labels)
     try:
-        impl = generate_transformation(l, cart_arr, tuple(labels), "left")
-        right = generate_transformation(l, cart_arr, list(labels), "right")
+        lab_list, cart_before = list(labels), cart_arr.copy()
+        right = generate_transformation(l, cart_arr, lab_list, "right")
+        impl = generate_transformation(l, cart_arr, lab_list, "left")          # the very same list object passed again
+        if lab_list != list(labels) or not np.array_equal(cart_arr, cart_before):
+            run.violation(f"generate_transformation altered its arguments: the label list is now {lab_list}",
+                          dict(rep, signature={"kind": "trans-argument-altered"}))
+            return False
+        if not np.array_equal(impl, generate_transformation(l, cart_arr, tuple(labels), "left")):
+            run.violation("generate_transformation gives another matrix for a label list passed a second time than for the same labels as a tuple",
+                          dict(rep, signature={"kind": "trans-list-vs-tuple"}))
+            return False
         iexc = None
     except (ValueError, TypeError) as e:
         iexc = "rejected"
